@@ -548,21 +548,6 @@ theorem LoopsFinal.for_body {gs g2 g5 : GS} {c : Ctx} {label : Option String} {b
 
 /-! ## Self tail calls: the generator on tail positions (`Fz`) -/
 
-theorem okParam_no_hash {p : String} (h : okParam p = true) : p.startsWith "#" = false := by
-  unfold okParam at h; simp only [Bool.and_eq_true, Bool.not_eq_true'] at h
-  exact h.2
-
-/-- no operand of a call of a function with these formals is delayed -/
-theorem notLazy_of_params {fo : FnObj} {ps : List String} (hp : fo.params = ps) (hok : ∀ p ∈ ps, okParam p = true) (i : Nat) :
-    fo.isLazyCallArg i = false := by
-  unfold FnObj.isLazyCallArg
-  split
-  · rfl
-  · rw [hp]
-    cases hi : ps[i]? with
-    | none => rfl
-    | some p => exact okParam_no_hash (hok p (List.mem_of_getElem? hi))
-
 /-- an operand compiled inline -/
 theorem compileCallArgs_cons_run {isFn : Nat → Bool} {c : Ctx} {f : Option FnObj} {i : Nat} {e : Expr} {es : List Expr}
     {gs : GS} {r : List Instr × GS} (hl : ∀ fo, f = some fo → fo.isLazyCallArg i = false) :
@@ -588,6 +573,21 @@ theorem compileCallArgs_cons_run {isFn : Nat → Bool} {c : Ctx} {f : Option FnO
   | some fo =>
     have := hl fo rfl
     simpa [this] using key
+
+/-- an operand in a lazy position: only the instruction that makes the lazy argument object -/
+theorem compileCallArgs_cons_lazy {isFn : Nat → Bool} {c : Ctx} {fo : FnObj} {i : Nat} {e : Expr} {es : List Expr}
+    {gs : GS} {r : List Instr × GS} (hl : fo.isLazyCallArg i = true) :
+    (compileCallArgs isFn c (some fo) i (e :: es)).run gs = .ok r ↔
+      ∃ rb, (compileCallArgs isFn c (some fo) (i + 1) es).run gs = .ok (rb, r.2) ∧ r.1 = [.pushLazy e] ++ rb := by
+  rw [compileCallArgs.eq_def]
+  simp only [hl, if_true, g_bind_ok, g_pure_ok]
+  constructor
+  · rintro ⟨a, g1, h1, b, g2, h3, h4⟩
+    obtain ⟨rfl, rfl⟩ := Prod.mk.inj h1
+    subst h4
+    exact ⟨b, h3, rfl⟩
+  · rintro ⟨rb, h2, h3⟩
+    exact ⟨_, _, rfl, rb, r.2, h2, by rw [← h3]⟩
 
 theorem compileCallArgs_total : ∀ (self : String) (args : List Expr), FfList false self args = true →
     ∀ isFn c f i gs, FnameOk self c → ∃ code gs', (compileCallArgs isFn c f i args).run gs = .ok (code, gs') ∧ KeepFns gs gs'
